@@ -1132,3 +1132,56 @@ def option_map_or_else(ctx):
     if r is None:
         return NotImplemented
     return r
+
+
+@contract(r' as Iterator>::position::<.*>$')
+def iter_position(ctx):
+    ex, st = ctx.ex, ctx.st
+    elems = _explicit_elems(ctx, ctx.args[0])
+    clo = ctx.args[1]
+    body = ex.db.closure_fn(clo.name) if isinstance(clo, Agg) else None
+    if elems is None or body is None:
+        return NotImplemented
+    ccell = st.alloc(clo)
+    outs = []
+    cur = st
+    for k, e in enumerate(elems):
+        p = ex.call_sub_merge(cur, body, [Ref(ccell, ()), Ref(e.cell, e.path, False)])
+        if p is None:
+            return NotImplemented
+        t, f = ex.branch(cur, p.t)
+        if t:
+            s2 = cur.fork() if f else cur
+            ex.assume(s2, p.t)
+            outs.append((s2, mk_option(ex, Int(BV(k, 64), 64, False))))
+        if not f:
+            return outs
+        ex.assume(cur, z3.Not(p.t))
+    outs.append((cur, mk_option(ex, None)))
+    return outs
+
+
+@contract(r'^VecDeque::<.*>::swap_remove_back$|^VecDeque::<.*>::swap_remove_front$|^VecDeque::<.*>::remove$|^Vec::<(?!u8>).*>::swap_remove$|^Vec::<(?!u8>).*>::remove$')
+def seq_remove_variants(ctx):
+    ex, st = ctx.ex, ctx.st
+    v, loc = seq_loc(ex, st, ctx.args[0])
+    i = concrete(ctx.args[1].t)
+    if not (isinstance(v, SeqV) and v.items is not None) or i is None:
+        return NotImplemented
+    items = list(v.items)
+    is_vec = ctx.callee.startswith('Vec::')
+    if i >= len(items):
+        if is_vec:
+            ex.require(st, False, 'index', 'removal index out of bounds')
+        return mk_option(ex, None)
+    x = items[i]
+    if 'swap_remove_back' in ctx.callee or ctx.callee.endswith('::swap_remove'):
+        items[i] = items[-1]
+        items.pop()
+    elif 'swap_remove_front' in ctx.callee:
+        items[i] = items[0]
+        items.pop(0)
+    else:
+        items.pop(i)
+    ex.store(st, loc[0], loc[1], SeqV.from_items(items, v.elem_ty, v.kind))
+    return x if is_vec else mk_option(ex, x)
